@@ -60,6 +60,7 @@ func runSyncScenario(t testing.TB, rec *vRec, sc *prodScenario) {
 		c.plans[n] = p
 	}
 	config := NewConfig()
+	config.ClientID = c.clientID
 	v, err := ParseKafkaVersion(cfgv.Version)
 	if err != nil {
 		t.Fatalf("bad version %q", cfgv.Version)
